@@ -5,6 +5,7 @@ package main
 
 import (
 	"fmt"
+	"go/ast"
 	"os"
 	"regexp"
 	"go/token"
@@ -89,13 +90,73 @@ func elemSortOfArr(arrSort string) string {
 	return strings.TrimSuffix(s, ")")
 }
 
-func (ex *Exec) callSiteClauses(name string, k int, when string, args []TV, rets []TV, pos token.Pos) {
+// localsBefore resolves source-level local variable names to the SSA values they
+// denote just before instruction site (through the DebugRefs of the site's block
+// and of its dominators, nearest first).
+func (ex *Exec) localsBefore(site ssa.Instruction) map[string]TV {
+	out := map[string]TV{}
+	if site == nil || site.Block() == nil {
+		return out
+	}
+	take := func(dr *ssa.DebugRef) {
+		if dr.IsAddr {
+			return
+		}
+		id, ok := dr.Expr.(*ast.Ident)
+		if !ok {
+			return
+		}
+		if _, have := out[id.Name]; have {
+			return
+		}
+		v, known := ex.vals[dr.X]
+		if !known {
+			if _, isConst := dr.X.(*ssa.Const); !isConst {
+				if _, isParam := dr.X.(*ssa.Parameter); !isParam {
+					return
+				}
+			}
+			v = ex.val(dr.X)
+		}
+		if v.P != nil || len(v.Tup) > 0 || v.T == "" {
+			return
+		}
+		out[id.Name] = TV{T: v.T, Ty: dr.X.Type()}
+	}
+	b := site.Block()
+	idx := len(b.Instrs)
+	for i, in := range b.Instrs {
+		if in == site {
+			idx = i
+		}
+	}
+	for i := idx - 1; i >= 0; i-- {
+		if dr, ok := b.Instrs[i].(*ssa.DebugRef); ok {
+			take(dr)
+		}
+	}
+	for d := b.Idom(); d != nil; d = d.Idom() {
+		for i := len(d.Instrs) - 1; i >= 0; i-- {
+			if dr, ok := d.Instrs[i].(*ssa.DebugRef); ok {
+				take(dr)
+			}
+		}
+	}
+	return out
+}
+
+func (ex *Exec) callSiteClauses(name string, k int, when string, args []TV, rets []TV, pos token.Pos, site ssa.Instruction) {
 	vc := ex.vc
 	for _, c := range vc.fc.Clauses {
 		if (c.Kind != "ghost" && c.Kind != "assert") || c.When != when || c.Callee != name || (c.CallK != k && c.CallK != -1) {
 			continue
 		}
 		env := ex.specEnv(ex.cur.heap)
+		for n, tv := range ex.localsBefore(site) {
+			if _, have := env.vars[n]; !have || ex.params[n].T == env.vars[n].T {
+				env.vars[n] = tv
+			}
+		}
 		for i, a := range args {
 			env.vars[fmt.Sprintf("arg%d", i)] = a
 		}
@@ -152,7 +213,7 @@ func (ex *Exec) call(v ssa.Value, cc *ssa.CallCommon, instr ssa.Instruction) {
 	name := calleeBareName(cc)
 	k := ex.callIdxOf[instr]
 	args := ex.argTVs(cc)
-	ex.callSiteClauses(name, k, "before", args, nil, instr.Pos())
+	ex.callSiteClauses(name, k, "before", args, nil, instr.Pos(), instr)
 	ex.dispatch(v, cc, instr, name, args)
 	var rets []TV
 	if v != nil {
@@ -181,7 +242,7 @@ func (ex *Exec) call(v ssa.Value, cc *ssa.CallCommon, instr ssa.Instruction) {
 			ex.subErrSites = append(ex.subErrSites, name)
 		}
 	}
-	ex.callSiteClauses(name, k, "after", args, rets, instr.Pos())
+	ex.callSiteClauses(name, k, "after", args, rets, instr.Pos(), instr)
 }
 
 func (ex *Exec) dispatch(v ssa.Value, cc *ssa.CallCommon, instr ssa.Instruction, name string, args []TV) {
